@@ -1332,3 +1332,217 @@ Proof.
 Qed.
 
 End Run.
+
+(** ------------------------------------------------------------------ Run re-establishes its precondition; idempotence *)
+Section Idem.
+Variable H : str -> str.
+Variable host : str.
+
+Lemma elems_sub_incl a b : elems_sub a b = true -> forall e, In e a -> In e b.
+Proof.
+  unfold elems_sub. intros Hs e He. rewrite forallb_forall in Hs. specialize (Hs e He).
+  apply existsb_exists in Hs. destruct Hs as [x [Hx E]]. apply andb_true_iff in E. destruct E as [E1 E2].
+  apply str_eqb_eq in E1. apply eqb_prop in E2. destruct e as [e1 e2]. destruct x as [x1 x2]. simpl in *. subst. exact Hx.
+Qed.
+
+Lemma cset_eqv_parts cs x : cset_eqv cs x = true ->
+  s_type x = cs_type cs /\ (forall e, In e (cs_elems cs) -> In e (s_elems x)) /\ (forall e, In e (s_elems x) -> In e (cs_elems cs)).
+Proof.
+  unfold cset_eqv. rewrite !andb_true_iff. intros [[E1 E2] E3]. apply settype_eqb_eq in E1.
+  split; [symmetry; exact E1|]. split; [apply elems_sub_incl; exact E2|apply elems_sub_incl; exact E3].
+Qed.
+
+Lemma want_hooks_In (hk : pod -> N -> rule) (sel : pod -> bool) ps r :
+  In r (flat_map (fun p => match pod_ip p with Some a => if sel p then [hk p a] else [] | None => [] end) ps) ->
+  exists p a, In p ps /\ pod_ip p = Some a /\ sel p = true /\ r = hk p a.
+Proof.
+  intros Hin. apply in_flat_map in Hin. destruct Hin as [p [Hp Hr]]. destruct (pod_ip p) as [a|] eqn:Ea; [|destruct Hr].
+  destruct (sel p) eqn:Es; [|destruct Hr]. destruct Hr as [E|[]]. exists p, a. auto.
+Qed.
+
+Lemma post_pre c k k' : Pre H host c k -> Post H host c k k' -> Pre H host c k'.
+Proof.
+  intros HP [Q1 Q2 Q3 Q4 Q5 Q6 Q7 Q8 Q9 Q10 Q11 Q12 Q13 Q14].
+  set (pols := compile H c) in *. set (ps := local_pods host c) in *.
+  assert (forall x, hook_chain x = true -> has_chain x (k_filter k') = true) as Hhk.
+  { intros x Hx. destruct (Q11 x Hx) as [rs [rs' [_ [Hl _]]]]. eapply has_chain_some. exact Hl. }
+  assert (forall p, In p ps -> wants pols p = true ->
+            tlookup (pod_chain H p) (k_filter k') = Some (pod_chain_rules H pols p)) as Q7'.
+  { intros p Hp Hw. rewrite (Q7 p Hp), Hw. reflexivity. }
+  assert (forall x rs, has_prefix pod_prefix x = true -> tlookup x (k_filter k') = Some rs ->
+            exists p, rs = pod_chain_rules H pols p) as Hpodrs.
+  { intros x rs Hx Hl. destruct (Q8 x Hx (has_chain_some _ _ _ Hl)) as [p [Hp [Hw E]]]. subst x.
+    rewrite (Q7' p Hp Hw) in Hl. inversion Hl. exists p. reflexivity. }
+  assert (forall ch (hk : pod -> N -> rule) (sel : pod -> bool), good_hook H hk ->
+            (has_chain ch (k_filter k') = has_chain ch (k_filter k) || existsb (wants pols) ps /\
+             NoDup (chain_rules ch (k_filter k')) /\
+             forall r, In r (chain_rules ch (k_filter k')) <->
+               In r (flat_map (fun p : pod => match pod_ip p with Some a => if sel p then [hk p a] else [] | None => [] end) ps)) ->
+            (forall p, sel p = true -> in_selected pols p || eg_selected pols p = true) ->
+            hooks_owned H ch hk ps (k_filter k')) as Hside.
+  { intros ch hk sel Hg [_ [Y2 Y3]] Hsel. split; [exact Y2|]. intros r Hr. apply Y3 in Hr.
+    destruct (want_hooks_In hk sel ps r Hr) as [p [a [Hp [Ea [Es Er]]]]]. exists p, a. repeat split; try assumption.
+    eapply has_chain_some. apply (Q7' p Hp). unfold wants. rewrite (Hsel p Es), Ea. reflexivity. }
+  constructor.
+  - exact Q4.
+  - exact Q3.
+  - apply Hhk. reflexivity.
+  - apply Hhk. reflexivity.
+  - apply Hhk. reflexivity.
+  - intros x Hc Hg. unfold glx_kind. destruct (has_prefix plcy_prefix x) eqn:E1; [reflexivity|].
+    destruct (has_prefix pod_prefix x) eqn:E2; [reflexivity|].
+    destruct (str_eqb_spec x ingress_chain) as [E3|E3]; [reflexivity|].
+    destruct (str_eqb_spec x egress_chain) as [E4|E4]; [reflexivity|]. exfalso.
+    unfold has_chain in Hc. rewrite (Q14 x E1 E2 E3 E4 (glx_not_hook x Hg)) in Hc.
+    pose proof (p_kind H host c k HP x Hc Hg) as E. unfold glx_kind in E. rewrite E1, E2 in E.
+    apply str_eqb_neq in E3. apply str_eqb_neq in E4. rewrite E3, E4 in E. discriminate.
+  - intros cs Hcs. destruct (Q1 cs Hcs) as [x [Hx [Hy Hz]]]. destruct (cset_eqv_parts cs x Hy) as [Y1 [Y2 Y3]].
+    destruct (p_sets H host c k HP cs Hcs) as [[Hww _] _]. unfold set_pre. rewrite Hx.
+    split; [|exact Y1]. split; [exact Hww|]. split; [exact Hz|]. split.
+    + intros e o He Ho. apply Hww; [exact He|apply Y3; exact Ho].
+    + intros e [He|He]; [|apply Y3 in He]; eapply compile_elems_wf; eassumption.
+  - intros x Hc Hp Hni. exfalso. exact (Hni (Q6 x Hp Hc)).
+  - intros x rs r s Hl Hp Hr Hs. destruct (has_prefix pod_prefix x) eqn:E2.
+    { destruct (Hpodrs x rs E2 Hl) as [p E]. subst rs. destruct (pod_chain_rules_targets H pols p r Hr) as [_ X].
+      rewrite X in Hs. destruct Hs. }
+    destruct (str_eqb_spec x ingress_chain) as [E3|E3].
+    { subst x. rewrite <- (chain_rules_some _ _ _ Hl) in Hr. destruct Q9 as [_ [_ Y3]]. apply Y3 in Hr.
+      destruct (want_hooks_In _ _ _ _ Hr) as [p [a [_ [_ [_ Er]]]]]. subst r. destruct Hs. }
+    destruct (str_eqb_spec x egress_chain) as [E4|E4].
+    { subst x. rewrite <- (chain_rules_some _ _ _ Hl) in Hr. destruct Q10 as [_ [_ Y3]]. apply Y3 in Hr.
+      destruct (want_hooks_In _ _ _ _ Hr) as [p [a [_ [_ [_ Er]]]]]. subst r. destruct Hs. }
+    destruct (hook_chain x) eqn:Hh.
+    + destruct (Q11 x Hh) as [rs0 [rs1 [L0 [L1 S1]]]]. rewrite Hl in L1. inversion L1. subst rs1.
+      destruct (strip_In H host r rs rs0 S1 Hr) as [[X|X]|X]; [subst r; destruct Hs|subst r; destruct Hs|].
+      exact (p_setref H host c k HP x rs0 r s L0 Hp X Hs).
+    + rewrite (Q14 x Hp E2 E3 E4 Hh) in Hl. exact (p_setref H host c k HP x rs r s Hl Hp Hr Hs).
+  - intros x rs r Hl Hr Ht. destruct (has_prefix plcy_prefix x) eqn:Hp; [left; reflexivity|right].
+    destruct (str_eqb_spec x ingress_chain) as [E3|E3]; [left; exact E3|].
+    destruct (str_eqb_spec x egress_chain) as [E4|E4]; [right; exact E4|]. exfalso.
+    destruct (has_prefix pod_prefix x) eqn:E2.
+    { destruct (Hpodrs x rs E2 Hl) as [p E]. subst rs. destruct (pod_chain_rules_targets H pols p r Hr) as [X _]. congruence. }
+    assert (forall rs0, tlookup x (k_filter k) = Some rs0 -> In r rs0 -> False) as Old.
+    { intros rs0 L0 X. destruct (p_podref H host c k HP x rs0 r L0 X Ht) as [Y|[Y|Y]]; congruence. }
+    destruct (hook_chain x) eqn:Hh.
+    + destruct (Q11 x Hh) as [rs0 [rs1 [L0 [L1 S1]]]]. rewrite Hl in L1. inversion L1. subst rs1.
+      destruct (strip_In H host r rs rs0 S1 Hr) as [[X|X]|X]; [subst r; discriminate|subst r; discriminate|].
+      exact (Old rs0 L0 X).
+    + rewrite (Q14 x Hp E2 E3 E4 Hh) in Hl. exact (Old rs Hl Hr).
+  - intros x Hx Hc. destruct (Q8 x Hx Hc) as [p [Hp [Hw E]]]. exists p. split; [exact Hp|]. split; [|exact E].
+    unfold wants in Hw. apply andb_true_iff in Hw. destruct Hw as [_ Hw]. destruct (pod_ip p); [discriminate|discriminate].
+  - apply (Hside ingress_chain (in_hook H) (in_selected pols) (in_hook_good H) Q9).
+    intros p E. rewrite E. reflexivity.
+  - apply (Hside egress_chain (eg_hook H) (eg_selected pols) (eg_hook_good H) Q10).
+    intros p E. rewrite E. apply orb_true_r.
+Qed.
+
+(** two kernels that are both what a Run for [c] leaves, the second obtained from the first *)
+Lemma chain_eqv_refl x rs : chain_eqv x rs rs = true.
+Proof. unfold chain_eqv. destruct (unordered_chain x); [apply rules_perm_refl|apply rules_eqb_refl]. Qed.
+
+Definition teq (x : str) (a b : table) : Prop :=
+  match tlookup x a, tlookup x b with
+  | Some r1, Some r2 => chain_eqv x r1 r2 = true /\ chain_eqv x r2 r1 = true
+  | None, None => True
+  | _, _ => False
+  end.
+
+Lemma teq_same x a b : tlookup x a = tlookup x b -> teq x a b.
+Proof. intros E. unfold teq. rewrite E. destruct (tlookup x b); [split; apply chain_eqv_refl|exact I]. Qed.
+
+Lemma table_eqv_of_teq a b : NoDup (map fst a) -> NoDup (map fst b) -> (forall x, teq x a b) -> table_eqv a b = true.
+Proof.
+  intros Na Nb Ht. unfold table_eqv, table_sub_eqv. apply andb_true_iff. split; apply forallb_forall; intros [n rs] Hin; cbn [fst snd].
+  - specialize (Ht n). unfold teq in Ht. rewrite (In_tlookup n rs a Na Hin) in Ht.
+    destruct (tlookup n b); [exact (proj1 Ht)|destruct Ht].
+  - specialize (Ht n). unfold teq in Ht. rewrite (In_tlookup n rs b Nb Hin) in Ht.
+    destruct (tlookup n a); [exact (proj2 Ht)|destruct Ht].
+Qed.
+
+Lemma side_teq ch a b : unordered_chain ch = true ->
+  has_chain ch a = has_chain ch b -> NoDup (chain_rules ch a) -> NoDup (chain_rules ch b) ->
+  (forall r, In r (chain_rules ch a) <-> In r (chain_rules ch b)) -> teq ch a b.
+Proof.
+  unfold teq, has_chain, chain_rules, chain_eqv. intros Hu Hc Na Nb Hi. rewrite Hu.
+  destruct (tlookup ch a); destruct (tlookup ch b); try discriminate; [|exact I].
+  split; apply rules_perm_nodup; try assumption. intros r. symmetry. apply Hi.
+Qed.
+
+Lemma posts_eqv c k k' k'' :
+  Post H host c k k' -> Post H host c k' k'' -> kernel_eqv k'' k' = true.
+Proof.
+  intros [Q1 Q2 Q3 Q4 Q5 Q6 Q7 Q8 Q9 Q10 Q11 Q12 Q13 Q14] [R1 R2 R3 R4 R5 R6 R7 R8 R9 R10 R11 R12 R13 R14].
+  set (pols := compile H c) in *. set (ps := local_pods host c) in *.
+  unfold kernel_eqv. apply andb_true_iff. split.
+  - apply table_eqv_of_teq; [exact R4|exact Q4|]. intros x.
+    destruct (has_prefix plcy_prefix x) eqn:E1.
+    { apply teq_same. destruct (mem x (map (chain_of H) pols)) eqn:Em.
+      - apply mem_In in Em. apply in_map_iff in Em. destruct Em as [cp [E Hcp]]. subst x. rewrite (R5 cp Hcp), (Q5 cp Hcp). reflexivity.
+      - apply mem_false in Em. destruct (tlookup x (k_filter k'')) eqn:L2.
+        { exfalso. apply Em. apply (R6 x E1). eapply has_chain_some. exact L2. }
+        destruct (tlookup x (k_filter k')) eqn:L1; [|reflexivity].
+        exfalso. apply Em. apply (Q6 x E1). eapply has_chain_some. exact L1. }
+    destruct (has_prefix pod_prefix x) eqn:E2.
+    { apply teq_same. destruct (mem x (map (pod_chain H) ps)) eqn:Em.
+      - apply mem_In in Em. apply in_map_iff in Em. destruct Em as [p [E Hp]]. subst x. rewrite (R7 p Hp), (Q7 p Hp). reflexivity.
+      - apply mem_false in Em. destruct (tlookup x (k_filter k'')) eqn:L2.
+        { exfalso. destruct (R8 x E2 (has_chain_some _ _ _ L2)) as [p [Hp [_ E]]]. apply Em. rewrite E. apply in_map. exact Hp. }
+        destruct (tlookup x (k_filter k')) eqn:L1; [|reflexivity].
+        exfalso. destruct (Q8 x E2 (has_chain_some _ _ _ L1)) as [p [Hp [_ E]]]. apply Em. rewrite E. apply in_map. exact Hp. }
+    destruct (str_eqb_spec x ingress_chain) as [E3|E3].
+    { subst x. destruct Q9 as [Y1 [Y2 Y3]]. destruct R9 as [Z1 [Z2 Z3]]. apply side_teq; [reflexivity| |exact Z2|exact Y2|].
+      - rewrite Z1, Y1. destruct (has_chain ingress_chain (k_filter k)); destruct (existsb (wants pols) ps); reflexivity.
+      - intros r. rewrite Z3, Y3. reflexivity. }
+    destruct (str_eqb_spec x egress_chain) as [E4|E4].
+    { subst x. destruct Q10 as [Y1 [Y2 Y3]]. destruct R10 as [Z1 [Z2 Z3]]. apply side_teq; [reflexivity| |exact Z2|exact Y2|].
+      - rewrite Z1, Y1. destruct (has_chain egress_chain (k_filter k)); destruct (existsb (wants pols) ps); reflexivity.
+      - intros r. rewrite Z3, Y3. reflexivity. }
+    apply teq_same. destruct (hook_chain x) eqn:Hh.
+    + apply R12; [|exact Hh]. destruct (existsb (wants pols) ps) eqn:Ex; [right; apply Q13; reflexivity|left; reflexivity].
+    + apply R14; assumption.
+  - pose proof (compile_names_glx H c) as Hg. fold pols in Hg.
+    assert (forall n x, mem n (map cs_name (all_sets pols)) = true ->
+              slookup n (k_sets k'') = Some x \/ slookup n (k_sets k') = Some x ->
+              exists x1 x2, slookup n (k_sets k'') = Some x2 /\ slookup n (k_sets k') = Some x1 /\
+                 settype_eqb (s_type x2) (s_type x1) = true /\ elems_eqv (s_elems x2) (s_elems x1) = true /\
+                 settype_eqb (s_type x1) (s_type x2) = true /\ elems_eqv (s_elems x1) (s_elems x2) = true) as Hw.
+    { intros n x Em _. apply mem_In in Em. apply in_map_iff in Em. destruct Em as [cs [E Hcs]]. subst n.
+      destruct (Q1 cs Hcs) as [x1 [L1 [C1 _]]]. destruct (R1 cs Hcs) as [x2 [L2 [C2 _]]]. exists x1, x2.
+      destruct (cset_eqv_parts cs x1 C1) as [T1 [A1 B1]]. destruct (cset_eqv_parts cs x2 C2) as [T2 [A2 B2]].
+      split; [exact L2|]. split; [exact L1|]. rewrite T1, T2, settype_eqb_refl. unfold elems_eqv.
+      rewrite !(elems_sub_intro (s_elems x2) (s_elems x1)), !(elems_sub_intro (s_elems x1) (s_elems x2)); auto. }
+    unfold sets_eqv, sets_sub. apply andb_true_iff. split; apply forallb_forall; intros [n x] Hin; cbn [fst snd].
+    + pose proof (In_slookup n x _ R3 Hin) as L2. destruct (mem n (map cs_name (all_sets pols))) eqn:Em.
+      * destruct (Hw n x Em (or_introl L2)) as [x1 [x2 [M2 [M1 [T [E _]]]]]]. rewrite L2 in M2. inversion M2. subst x2.
+        rewrite M1, T, E. reflexivity.
+      * apply mem_false in Em. pose proof (R2 n Em) as E. rewrite L2 in E. destruct (has_prefix glx n); [discriminate|].
+        rewrite <- E. rewrite settype_eqb_refl, elems_eqv_refl. reflexivity.
+    + pose proof (In_slookup n x _ Q3 Hin) as L1. destruct (mem n (map cs_name (all_sets pols))) eqn:Em.
+      * destruct (Hw n x Em (or_intror L1)) as [x1 [x2 [M2 [M1 [_ [_ [T E]]]]]]]. rewrite L1 in M1. inversion M1. subst x1.
+        rewrite M2, T, E. reflexivity.
+      * apply mem_false in Em. pose proof (Q2 n Em) as E. rewrite L1 in E. destruct (has_prefix glx n) eqn:Hgn; [discriminate|].
+        rewrite (R2 n Em), Hgn, L1. rewrite settype_eqb_refl, elems_eqv_refl. reflexivity.
+Qed.
+
+(** theorem 2 *)
+Theorem run_idem c k m m' k' :
+  Pre H host c k -> names_distinct H host c = true -> run H host c (m, k) = (m', k', true) ->
+  Pre H host c k' /\
+  exists m'' k'', run H host c (m', k') = (m'', k'', true) /\ kernel_eqv k'' k' = true /\
+                  glx_exact H host c k'' = true /\ foreign_same k' k'' = true.
+Proof.
+  intros HP Hn R. destruct (run_restart H host c k m HP Hn) as [k1 [R1 Q1]]. rewrite R in R1. inversion R1. subst m' k1.
+  pose proof (post_pre c k k' HP Q1) as HP'. split; [exact HP'|].
+  destruct (run_restart H host c k' (recompile H c m) HP' Hn) as [k'' [R2 Q2]].
+  exists (recompile H c (recompile H c m)), k''. split; [exact R2|]. split; [exact (posts_eqv c k k' k'' Q1 Q2)|].
+  split; [exact (post_exact H host c k' k'' Hn Q2)|exact (post_foreign H host c k' k'' HP' Q2)].
+Qed.
+
+Theorem run_idem_bool c k m m' k' :
+  hash_distinct H host c = true -> restart_pre H host c k = true -> run H host c (m, k) = (m', k', true) ->
+  exists m'' k'', run H host c (m', k') = (m'', k'', true) /\ kernel_eqv k'' k' = true.
+Proof.
+  intros Hd Hp R. destruct (run_idem c k m m' k' (pre_of_bool H host c k Hp) (hash_distinct_names H host c Hd) R)
+    as [_ [m'' [k'' [R2 [E _]]]]]. exists m'', k''. split; assumption.
+Qed.
+End Idem.
